@@ -289,3 +289,58 @@ def first_diff(a, b):
         if x != y:
             return i
     return min(len(a), len(b))
+
+
+def duplicate_tables(ck, repo, R):
+    """C10-D1: both common_isotopes tables equal, 119 long, equal mdl_isotope - 16; elements list in order"""
+    ck.rule(R, 'common_isotopes in both .pyx have 119 entries, are equal, and equal mdl_isotope(Z)-16; the unpacker elements list and import list are the 118 classes in atomic-number order')
+    t = ElementTable(repo)
+    bn = t.by_number()
+    psrc = pyx_source(repo.root, PACK)
+    usrc = pyx_source(repo.root, UNPACK)
+    a = pyx_list_assign(psrc, 'common_isotopes')
+    b = pyx_list_assign(usrc, 'common_isotopes')
+    ck.decide(len(a) == len(b) == 119 and pyx_decl_len(psrc, 'common_isotopes') == pyx_decl_len(usrc, 'common_isotopes') == 119, R, 'len', (len(a), len(b)),
+              f'common_isotopes tables have {len(a)} / {len(b)} entries (declared {pyx_decl_len(psrc, "common_isotopes")} / {pyx_decl_len(usrc, "common_isotopes")}), expected 119', file=PACK)
+    for z in range(1, 119):
+        syms = bn.get(z, [])
+        if len(syms) != 1:
+            ck.bad(R, f'Z={z}', f'atomic number {z} carried by {syms}')
+            continue
+        mi = t.rows[syms[0]]['mdl_isotope']
+        va = a[z] if z < len(a) else None
+        vb = b[z] if z < len(b) else None
+        ck.decide(isinstance(mi, int) and va == vb == mi - 16, R, f'Z={z}', va, f'{syms[0]} (Z={z}): pack table {va}, unpack table {vb}, mdl_isotope-16 = {mi - 16 if isinstance(mi, int) else mi}',
+                  file=t.rows[syms[0]]['class'].file, line=t.rows[syms[0]].get('lines', {}).get('mdl_isotope'))
+    els = pyx_list_assign(usrc, 'elements', as_names=True)
+    ck.decide(els == [None] + STANDARD_SYMBOLS, R, 'elements', None, f'unpacker elements list differs from the periodic order at index {first_diff(els, [None] + STANDARD_SYMBOLS)}', file=UNPACK)
+    imp = pyx_import_names(usrc, 'chython.periodictable')
+    ck.decide(imp is not None and set(x for x in els if x) <= set(imp), R, 'imports', None, 'unpacker uses element names it does not import', file=UNPACK)
+    ck.decide('common_isotopes[atomic_number]' in psrc and 'common_isotopes[atomic_number] + isotope' in usrc, R, 'use', None,
+              'isotope offset is no longer computed against common_isotopes[atomic_number] on both sides', file=PACK)
+    ck.floor(R, 118)
+
+
+def isotope_windows(ck, repo, R):
+    ck.rule(R, 'every tabulated isotope offset (isotope - (mdl_isotope - 16)) fits the 5-bit field 1..31 (0 = unspecified); charges admitted by the setter '
+               'fit the 4-bit charge + 4 field; the largest hydrogen count of the valence tables fits 0..6 (7 = unknown)')
+    t = ElementTable(repo)
+    n = 0
+    for sym, row in t.rows.items():
+        mi = row['mdl_isotope']
+        for i in row['isotopes_distribution']:
+            n += 1
+            ck.decide(isinstance(mi, int) and 1 <= i - (mi - 16) <= 31, R, f'{sym}:{i}', None, f'{sym} isotope {i}: offset {i - (mi - 16) if isinstance(mi, int) else "?"} outside 1..31',
+                      file=row['class'].file, line=row.get('lines', {}).get('isotopes_distribution'))
+    setter = repo.cls('chython.periodictable.base.element:Element').method('charge', setter=True)
+    cb = charge_bounds(setter)
+    ck.decide(cb is not None and 0 <= cb[0] + 4 and cb[1] + 4 <= 15, R, 'charge', cb, f'charge range {cb} + 4 does not fit 4 bits', file=setter.file, line=setter.lineno)
+    numbers = {s: r['atomic_number'] for s, r in t.rows.items()}
+    maxh = 0
+    for row in t.rows.values():
+        rules, _ = compile_valence_rules(row, numbers)
+        for v in rules.values():
+            for _, _, h in v:
+                maxh = max(maxh, h)
+    ck.decide(maxh <= 6, R, 'hydrogens', maxh, f'valence tables can produce {maxh} implicit hydrogens; the 3-bit field holds 0..6 (7 = unknown)')
+    ck.require(n >= 380, f'only {n} tabulated isotopes seen')
